@@ -47,6 +47,9 @@ func (w *W) Emit(m interface{}) {
 	w.N++
 }
 
+// Flush makes the lines written so far durable.
+func (w *W) Flush() { w.w.Flush() }
+
 func (w *W) Close() {
 	w.w.Flush()
 	w.f.Close()
